@@ -44,13 +44,13 @@ def namespace():
     for k in ("Sequence", "Iterable", "Mapping", "Collection", "MutableSequence", "MutableMapping"):
         ns[k] = getattr(collections.abc, k)
     ns["AbstractSet"] = collections.abc.Set
-    for k in ("A", "B", "C", "E", "IE", "NT", "TD1", "TD2", "Falsy"):
+    for k in ("A", "B", "C", "E", "IE", "NT", "TD1", "TD2", "TD3", "TD4", "Falsy"):
         ns[k] = getattr(U, k)
     return ns
 
 
 BASES = ["int", "bool", "float", "complex", "str", "bytes", "object", "A", "B", "C", "E", "IE", "list", "tuple", "dict",
-         "set", "frozenset", "type", "None", "NT", "TD1", "TD2"]
+         "set", "frozenset", "type", "None", "NT", "TD1", "TD2", "TD3", "TD4"]
 LITS = ["1", "0", "True", "False", "'a'", "''", "b'a'", "None", "-1", "E.a", "IE.x", "2"]
 CLASSES_FOR_TYPE = ["int", "float", "bool", "str", "A", "B", "C", "object", "complex"]
 
@@ -206,13 +206,24 @@ def gen_obj_for(rng, T, depth=2):
     if T in U.NEWTYPES:
         return rng.choice([["int", 1], ["bool", True], ["ie", "x"]])
     if _is_typeddict(T):
-        kvs = [[["str", "a"], rng.choice([["int", 1], ["str", "s"], ["bool", True]])]]
-        if rng.random() < 0.5:
-            kvs.append([["str", "b"], rng.choice([["str", "x"], ["int", 2]])])
-        if rng.random() < 0.25:
-            kvs.append([rng.choice([["str", "z"], ["int", 5]]), ["int", 0]])
-        if rng.random() < 0.15:
-            kvs = kvs[1:]
+        # values are derived from the entry types (members and near misses); every entry may also hold
+        # None or another falsy value, be absent, and the dict may have an extra (possibly non-str) key
+        hints = typing.get_type_hints(T)
+        kvs = []
+        for key, ht in hints.items():
+            r = rng.random()
+            if r < (0.12 if key in T.__required_keys__ else 0.35):
+                continue  # key absent
+            if r < 0.62:
+                v = gen_obj_for(rng, ht, max(depth - 1, 0))
+            elif r < 0.80:
+                v = rng.choice([["none"], ["int", 0], ["bool", False], ["str", ""], ["list", lab_td(rng), []], ["tuple", 100, []]])
+            else:
+                v = G.gen_obj(rng, 1)
+            kvs.append([["str", key], v])
+        if rng.random() < 0.2:
+            kvs.append([rng.choice([["str", "z"], ["int", 5]]), rng.choice([["int", 0], ["none"]])])
+        rng.shuffle(kvs)
         return ["dict", rng.randrange(4), kvs]
     if origin is type:
         return ["class", rng.choice(["int", "bool", "float", "str", "A", "B", "C", "object"])]
@@ -259,6 +270,10 @@ def gen_obj_for(rng, T, depth=2):
         if T in pool:
             return rng.choice(pool[T])
     return G.gen_obj(rng, depth)
+
+
+def lab_td(rng):
+    return rng.randrange(4)
 
 
 def hashable_for(rng, T):
@@ -342,7 +357,7 @@ def run_programs(progs):
     import io
 
     lines = ["from typing import *", "from collections.abc import Sequence, Iterable, Mapping, Collection, MutableSequence, MutableMapping",
-             "from collections.abc import Set as AbstractSet", "from universe import A, B, C, E, IE, NT, TD1, TD2, Falsy", ""]
+             "from collections.abc import Set as AbstractSet", "from universe import A, B, C, E, IE, NT, TD1, TD2, TD3, TD4, Falsy", ""]
     where = {}
     for i, (t, src) in enumerate(progs):
         lines.append(f"def f{i}():")
